@@ -51,7 +51,7 @@ class Run:
         return out
 
 
-def run_backend(art, backend, entry, outdir, config=None, config_file=None, timeout=120, cwd=None):
+def run_backend(art, backend, entry, outdir, config=None, config_file=None, timeout=120, cwd=None, backtrace=False):
     if os.path.exists(outdir):
         shutil.rmtree(outdir)
     os.makedirs(outdir)
@@ -61,7 +61,7 @@ def run_backend(art, backend, entry, outdir, config=None, config_file=None, time
         cmd += ["--config", c]
     cmd += ["--config-file", config_file or os.path.join(os.path.dirname(entry), "no-such-config.toml")]
     env = dict(os.environ)
-    env["RUST_BACKTRACE"] = "0"
+    env["RUST_BACKTRACE"] = "1" if backtrace else "0"
     env["NO_COLOR"] = "1"
     try:
         p = subprocess.run(cmd, stdout=subprocess.PIPE, stderr=subprocess.PIPE, text=True, timeout=timeout, env=env,
